@@ -79,7 +79,6 @@ class BaseValidator:
         except TypeError as e:
             raise ValidationError(str(e)) from e
 
-    @ft.lru_cache(None)
     def signature(self, method: MethodType, exclude: Tuple[str, ...]) -> inspect.Signature:
         """
         Returns method signature.
@@ -89,7 +88,18 @@ class BaseValidator:
         :returns: signature
         """
 
+        # a bound method is a new object on every attribute access (class based views create one per request):
+        # the signature is cached by the underlying function so that neither the view nor its context is retained
+        if inspect.ismethod(method) and not inspect.isclass(method.__self__):
+            return self._signature(method.__func__, exclude, True)
+
+        return self._signature(method, exclude, False)
+
+    @ft.lru_cache(None)
+    def _signature(self, method: MethodType, exclude: Tuple[str, ...], bound: bool) -> inspect.Signature:
         signature = inspect.signature(method)
+        if bound:
+            signature = signature.replace(parameters=list(signature.parameters.values())[1:])
 
         method_parameters: List[inspect.Parameter] = []
         for param in signature.parameters.values():
